@@ -179,7 +179,8 @@ def ensure_build(variant="rel"):
                 if re.fullmatch(r"[0-9a-f]{16}", e)]
         ents.sort(key=lambda p: os.path.getmtime(p), reverse=True)
         for e in ents[2:]:
-            if e != root:
+            # a build younger than half an hour may belong to a check that is still running
+            if e != root and time.time() - os.path.getmtime(e) > 1800:
                 shutil.rmtree(e, ignore_errors=True)
         return vdir
     finally:
